@@ -8,9 +8,13 @@ Observations on these groups (code vs documentation page), adopted by the refere
   * E1605 is only evaluated when `objectives` is present;
   * E1603 / E1604 / E1606 / E1607 look at top-level objectives only, E1601 / E1602 also inside a multi-objective;
   * E1504 requires equality of the number of distinct locations and the matrix dimension (the page: "greater/higher than");
-    `max location index` is really "number of distinct locations - 1".
+    `max location index` is really "number of distinct locations - 1"; since 607d80d (repair of finding X12) it also rejects every
+    location index that is not below the matrix dimension (the page: "max index is greater than matrix size").
+Reader steps behind validation that end in E0002 and are part of the reference: an unparsable `Matrix::timestamp` (a510a8a, repair of
+X13; any timestamp on a one-matrix-per-profile document is E0002: time-aware routing needs two matrices per profile) and, on the
+matrix stream, `errorCodes` shorter than `distances` (f7d2f27, repair of X15) and cost vectors that are not size x size (17fc8e9).
 The generator keeps away from inputs whose post-validation behaviour it cannot predict (special ids `break`/`reload` in a relation
-only when no such conditional job list exists, dense location indices, one matrix per profile)."""
+only when no such conditional job list exists, one matrix per profile)."""
 import copy, json
 
 COST = ('minimize-cost', 'minimize-distance', 'minimize-duration')
@@ -120,9 +124,15 @@ def ref_routing(d, base_codes):
     if ms:
         n = len(set(tuple(l) for l in locs))
         size = int(round(len(ms[0]['distances']) ** 0.5))
-        if max(n, 1) != size:
+        if max(n, 1) != size or any(l[0] == 'i' and l[1] >= size for l in locs):
             out.append(1504)
     return out
+
+
+def expects_e0002(d):
+    """a document that breaks no validation rule but whose supplied matrices cannot become transport costs: an unparsable timestamp
+    (parse error), or any timestamp at all when every profile has a single matrix"""
+    return any(m.get('timestamp') is not None for m in d.get('matrices') or [])
 
 
 # ------------------------------------------------------------------ generation
@@ -371,7 +381,7 @@ def gen_objectives(rng, d):
 
 
 def gen_routing(rng, d):
-    k = rng.below(13)
+    k = rng.below(17)
     n_loc = count_locations(d)
     profs = []
     for p in d['profiles']:
@@ -411,6 +421,34 @@ def gen_routing(rng, d):
         d['profiles'] = []
         d['vehicles'][0]['profile'] = 'car'
         return ['routing-matrix-but-no-profiles']
+    if k == 13:
+        # one location index lies outside the matrix (former finding X12): E1504, whether or not the NUMBER of locations fits
+        d['loc_mode'] = 'index-sparse'
+        d['sparse'] = [rng.below(n_loc), rng.choice([n_loc, n_loc + 4, 1000])]
+        fit = rng.chance(2, 3)
+        d['matrices'] = matrices(n_loc if fit else n_loc + 1)
+        return ['routing-index-outside-matrix-count-%s' % ('fits' if fit else 'off')]
+    if k in (14, 15):
+        # matrix timestamps (former finding X13): unparsable -> E0002 (was a panic); a valid one on single matrices is E0002 as well
+        d['loc_mode'] = rng.choice(['coord', 'index'])
+        d['matrices'] = matrices(n_loc)
+        bad = rng.choice(['nope', '', '2020-07-04', '1593820800', '2020-13-40T00:00:00Z'])
+        good = '2020-07-04T00:00:00Z'
+        which = rng.below(len(d['matrices']))
+        for i, m in enumerate(d['matrices']):
+            if k == 14:
+                if i == which:
+                    m['timestamp'] = bad
+                elif rng.chance(1, 2):
+                    m['timestamp'] = good
+            else:
+                m['timestamp'] = good
+        return ['routing-matrix-timestamp-unparsable' if k == 14 else 'routing-matrix-timestamp-on-single-matrices']
+    if k == 16:
+        d['matrices'] = None                     # coordinates, no matrix, NO profile (former finding K10): E1501 (+E1505), no panic
+        d['profiles'] = []
+        d['prevalidation'] = True
+        return ['nomatrix-coordinates-no-profiles']
     if k == 9:
         d['loc_mode'] = 'mixed'                  # both location kinds, read WITHOUT matrices: E1502 + E1503, no approximation attempted
         d['matrices'] = None
@@ -461,6 +499,10 @@ def full_json(d, to_json):
             return {'index': k}
         if mode == 'index-shared':
             kk = max(k - 1, 0)
+            locs.append(('i', kk))
+            return {'index': kk}
+        if mode == 'index-sparse':
+            kk = d['sparse'][1] if k == d['sparse'][0] else k
             locs.append(('i', kk))
             return {'index': kk}
         if k % 2 == 0:
@@ -553,10 +595,13 @@ def gen_matrix_case(rng, mk_doc, to_json):
 
 
 def matrix_data_py(m):
-    """the documented behaviour of the matrix step: None = E0002 (an entry that is not marked unreachable has no data)"""
+    """the documented behaviour of the matrix step: None = E0002 (fewer error codes than distances, or an entry that is not marked
+    unreachable has no data)"""
     tt, dd, ec = m['travelTimes'], m['distances'], m.get('errorCodes')
     if ec is None:
         return (list(tt), list(dd))
+    if len(ec) < len(dd):
+        return None
     du, di = [], []
     for i, e in enumerate(ec):
         if e > 0:
@@ -589,6 +634,8 @@ def expected_transport(c):
     size = round_sqrt(len(datas[0][0]))
     if any(round_sqrt(len(a)) != size for a, _ in datas):
         return 'err'
+    if any(len(a) != size * size for a, _ in datas):        # "square matrices of the same size" (17fc8e9)
+        return 'err'
     return ('ok', size, [len(a) for a, _ in datas])
 
 
@@ -604,7 +651,7 @@ def oracle_matrix(c, impl):
         out.append({'class': matrix_panic_class(c, exp), 'what': rd['msg'][:300]})
     elif exp == 'err':
         if c10.outcome(rd) != ('err', (2,)):
-            out.append({'class': 'matrix-without-data-for-a-reachable-entry-not-reported-as-E0002:' + lab, 'what': str(rd)[:300]})
+            out.append({'class': 'matrix-without-data-or-not-square-not-reported-as-E0002:' + lab, 'what': str(rd)[:300]})
     elif rd['k'] != 'ok':
         out.append({'class': 'consistent-matrix-rejected:' + lab, 'what': str(rd)[:300]})
     return out
@@ -620,11 +667,8 @@ def compare_matrix(c, impl, model):
     got = c10.outcome(impl['read'])
     if model == [1]:
         return None if got == ('err', (2,)) else 'read: impl %s, model Err(E0002)' % (got,)
-    n2 = count_locations(c['doc']) ** 2
-    if all(l >= n2 for l in model[2:]):
-        return None if got == ('ok',) else 'read: impl %s %s, model Ok' % (got, impl['read'].get('msg', impl['read'].get('causes', '')))
-    # a matrix truncated by a short errorCodes array: later lookups are not modelled (ok or the recorded panic)
-    return None if got in (('ok',), ('panic',)) else 'read: impl %s, model Ok (truncated matrix)' % (got,)
+    # a successful step yields full size x size vectors that cover the distances (theorem C10_transport_ok_is_square_and_covers_distances)
+    return None if got == ('ok',) else 'read: impl %s %s, model Ok' % (got, impl['read'].get('msg', impl['read'].get('causes', '')))
 
 
 def prevalidation_term(c):
@@ -643,9 +687,6 @@ def compare_prevalidation(c, impl, model):
 
 
 def matrix_panic_class(c, exp):
-    n2 = count_locations(c['doc']) ** 2
-    if exp != 'err' and any(l < n2 for l in exp[2]):
-        return 'error-codes-shorter-than-matrix-truncate-it-panics-on-lookup'
     return 'matrix-step-panics:' + '/'.join(c.get('labels', []))
 
 
@@ -670,24 +711,8 @@ def crash_causes(problem, matrices):
         if any(r['jobs'].count(k) > n for k, n in have.items()):
             out.append('relation-special-id-without-conditional-job-panics-in-read-locks')
             break
-    # location index that is not below the number of distinct locations
-    locs = []
-
-    def walk(o):
-        if isinstance(o, dict):
-            if 'location' in o and isinstance(o['location'], dict):
-                locs.append(json.dumps(o['location'], sort_keys=True))
-            for x in o.values():
-                walk(x)
-        elif isinstance(o, list):
-            for x in o:
-                walk(x)
-    walk(problem)
-    n = len(set(locs))
-    if any('index' in json.loads(l) and json.loads(l)['index'] >= n for l in set(locs)):
-        out.append('location-index-not-below-number-of-distinct-locations-panics-in-jobs-index')
-    if any(m.get('timestamp') is not None and not str(m['timestamp'])[:4].isdigit() for m in matrices or []):
-        out.append('matrix-timestamp-unparsable-panics-in-transport-costs')
+    # (a location index outside the matrix - former X12 - breaks E1504 now, an unparsable matrix timestamp - former X13 - is E0002:
+    #  neither is a crash class of a rule-abiding document any more; a recurrence is `read-panics-unexplained` / a code mismatch)
     if not matrices and any(p.get('speed') is not None and p['speed'] <= 0 for p in fleet.get('profiles', [])):
         out.append('profile-speed-not-positive-panics-before-validation')
     return out
@@ -733,4 +758,6 @@ def oracle(c, impl):
             out.append({'class': 'read-reports-validation-code-not-in-reference:' + lab, 'what': str(got)})
         elif got != [2]:
             out.append({'class': 'valid-document-rejected-with-generic-code:%s:%s' % (got, lab), 'what': str(rd.get('causes'))[:300]})
+    elif expects_e0002(d):
+        out.append({'class': 'matrix-timestamp-not-reported-as-E0002:' + lab, 'what': 'read accepted %s' % [m.get('timestamp') for m in d['matrices']]})
     return out
